@@ -33,7 +33,7 @@ MODEL_FUNCS = ["metabolize", "digest_glucose", "_detect_pathway", "_glycolysis",
                "execute_tool_call", "engulf_tool", "register_function"]
 NUCLEUS_FUNCS = ["transcribe_with_tools"]
 # module-level primitives that the allow-list tables name (size-bounded arithmetic, since a9a4a4e)
-MODULE_FUNCS = ["_bounded_pow", "_bounded_mul", "_bounded_add", "_bounded_factorial"]
+MODULE_FUNCS = ["_bounded_pow", "_bounded_mul", "_bounded_add", "_bounded_mod", "_bounded_factorial"]
 
 
 class _Norm(ast.NodeTransformer):
